@@ -6,6 +6,7 @@ package core
 import (
 	"bufio"
 	"crypto/sha1"
+	"encoding/base64"
 	"encoding/json"
 	"fmt"
 	"os"
@@ -646,6 +647,11 @@ func ReplayMain(path string) int {
 }
 
 var _ = vrt.Now
+
+// WireCommand frames a command the way the dtail clients do (protocol 4.1).
+func WireCommand(cmd string) []byte {
+	return []byte("protocol 4.1 base64 " + base64.StdEncoding.EncodeToString([]byte(cmd)) + ";")
+}
 
 // ---------------------------------------------------------------------------
 // scratch files (created once per process, outside executions)
